@@ -1533,7 +1533,7 @@ class ProgramData:
                         set_to = set_to in ["yes", "on"]
                     option_value = flag_name
                     flag_name = flag_name.upper().replace("-", "_")
-                if flag_name not in ProgramFlag.__members__:
+                if not option_value.isascii() or flag_name not in ProgramFlag.__members__:  # (upper() folds some non-ASCII letters onto ASCII ones)
                     raise RuntimeError("Unknown flag " + option_value)
                 flag_overrides[ProgramFlag[flag_name]] = set_to
             elif option_name in ["h", "help"]:
@@ -1557,7 +1557,7 @@ class ProgramData:
                 cls.dry_run = True
             else:
                 p_option_name = option_name.upper().replace("-", "_")
-                if p_option_name not in ProgramOption.__members__:
+                if not option_name.isascii() or p_option_name not in ProgramOption.__members__:
                     raise RuntimeError("Unknown option " + option_name)
                 try:
                     if type(ProgramOption[p_option_name].default) is int and not (option_value.isascii() and option_value.isdigit()):
@@ -5604,7 +5604,13 @@ class DfaCompileCtx:
                 # constant assignment makes some (only where it is performed whatever the outputs hold: not under an if), every character appended
                 # behind it takes one again. Back here with none, the byte cannot fit either.
                 storage = overflowing[0].into_storage if overflowing and all(append.into_storage is overflowing[0].into_storage for append in overflowing) else None
-                capacity = storage.effective_string_size() if storage is not None and storage.holds_a(OutputStorageType.STR) else 1 << 30
+                if storage is not None and storage.holds_a(OutputStorageType.STR):
+                    capacity = storage.effective_string_size()
+                elif storage is not None and storage.holds_a(OutputStorageType.RAW):
+                    # (as many bytes as the C type has, where that is known; the overflow test compares with sizeof)
+                    capacity = CodegenCtx._get_maxval_hint_for_raw_type(storage.raw_underlying) or 1 << 30
+                else:
+                    capacity = 1 << 30
 
                 def room_behind(step, room):
                     for action in step.actions:
@@ -5841,7 +5847,8 @@ class CodegenCtx:
             else:
                 return "uintmax_t"
 
-    def _get_maxval_hint_for_raw_type(self, typename: str):
+    @staticmethod
+    def _get_maxval_hint_for_raw_type(typename: str):
         """
         Guess the size of an arbitrary c type.
         """
@@ -6464,7 +6471,8 @@ class CodegenCtx:
             else:
                 transition_body.add("// fallthrough to terminate")
         # Otherwise, if this state is targeting an accept state, return DONE instead of OK
-        elif immediate_done:
+        elif immediate_done and not (from_end and leaves_for_elsewhere):
+            # (in end(), where an action may have left for another state, the caller looks at where the machine really is)
             transition_body.add("// immediately return DONE")
             transition_body.add(f"return {self.program_name.upper()}_DONE;")
         # Normally, though, just generate a jump to the next jpto
@@ -6681,7 +6689,8 @@ class CodegenCtx:
         if answers_differently:
             redirected = " || ".join(f"state->state == {x}" for x in answers_differently)
             if final_state in self.dfa.accepting_states:
-                result.add(f"if ({redirected}) return {self.program_name.upper()}_FAIL;")
+                # end-of-input is still what comes next there: that state's own end handling answers (and keeps a FAIL final)
+                result.add(f"if ({redirected}) goto repeatswitch;")
             else:
                 result.add(f"if ({redirected}) return {self.program_name.upper()}_DONE;")
 
